@@ -1,5 +1,5 @@
 # configuration of ./check for property C02 (see props_config.py)
-CONFIG = {'gen': [],
+CONFIG = {'gen': ['ConstsC02'],
  'rule': 'cases = ParityBit 0..599 and large ints; ParityAdjust / createDesKey on every 7-bit group value in each of the 8 group positions '
          'over two backgrounds, random 7-byte keys, other key lengths; NTLMv1 through all entry points (password constructor: '
          'Hash/String/NTResponse/LMResponse; hash constructor; ntlm.desEncrypt and calculateNTLMv1Response via hooks) with passwords in '
@@ -7,7 +7,9 @@ CONFIG = {'gen': [],
          'key/Hash/ToHashcatString over a domain x user case grid (upper, lower, mixed, non-ASCII with special case mappings), random '
          'credentials, 64 KiB domains; ntlm.go ntowfv2 / createNTLMv2Blob / calculateNTLMv2Proof / calculateNTLMv2Response via hooks with '
          'AV-list, empty and random target info; the LM/NT payloads inside CreateAuthenticateMessage for both NTLMv1 and NTLMv2 flag sets; '
-         'distinct = distinct input line; non-trivial = implementation output is a non-empty value NTLMv2 objects are built either by NewNTLMv2 directly or, in a third of the cases, by NewNTLMv2 for another credential with every field assigned afterwards (object history: results must depend on the current fields only).',
+         'distinct = distinct input line; non-trivial = implementation output is a non-empty value NTLMv2 objects are built either by '
+         'NewNTLMv2 directly or, in a third of the cases, by NewNTLMv2 for another credential with every field assigned afterwards (object '
+         'history: results must depend on the current fields only).',
  'assumptions': ['MD4, HMAC-MD5, DES, hex, strings.ToUpper and the UTF-16 encoder are arbitrary functions in the theorems (laws assumed: '
                  'HMAC-MD5 returns 16 bytes, hex decodes back, DES ignores key parity bits); at run time the residual expressions are '
                  'evaluated with x/crypto/md4 and the Go standard library',
@@ -21,12 +23,22 @@ CONFIG = {'gen': [],
  'technique': 'Lean 4 proofs (exhaustive decide per byte value, bit extensionality for the 7->8 regrouping, list algebra over residual '
               'expressions for an arbitrary interpretation of the primitives) about a hand model; model tied to the Go code by '
               "differential correspondence; the spec side is an independent MS-NLMP verifier evaluated with stdlib crypto on the library's "
-              'own output',
+              'own output; constants regenerated from the source on every run by a go/ast fact extractor (Gen/ConstsC02: the masks and '
+              'shifts of createDesKey with its parity loop, the 16/8 guard and the 7/7/2+5 key slicing of desEncrypt, NTResponse, '
+              'LMResponse and NTLMv1.Hash (21-byte padding), the 0101 blob header, reserved fields, AV id 2 and guard 0..0xFFFF, the '
+              '11644473600 / 10^7 / 116444736000000000 epoch constants, the 7-bit groups of ParityAdjust) and proved equal to the ones the '
+              'model uses by rfl/decide (20 theorems consts_match_model_*)',
  'level_text': 'parity_bit_spec, parity_adjust_spec (all 7-byte keys: key bits preserved in order, odd parity), '
                'createDesKey_eq_parityAdjust, v1_paths_agree, v1_eq_DESL (all 16-byte hashes, all challenges, any DES), v2_accepted / '
                'v2_accepted_ntlm (all credentials in any case and script, all challenges, any HMAC), v2_blob_wellformed / '
                'v2_blob_wellformed_ntlm / v2_response_blob, hashcat_reparse_verifies are proved in Lean for all inputs about a hand model '
-               'of the patched code (five fix patches repair what the original tree violated).',
- 'level_note': 'Trusted: Lean kernel; axioms propext, Classical.choice, Quot.sound; the hand model is tied to the Go code only by '
-               'differential testing (bounded); the cryptographic primitives are opaque parameters (their stdlib implementations are used, '
-               'not verified).'}
+               'of the patched code (five fix patches repair what the original tree violated). Constants tie: 20 theorems '
+               'consts_match_model_* restate the model functions with the numbers regenerated from the current source (the masks and '
+               'shifts of createDesKey with its parity loop, the 16/8 guard and the 7/7/2+5 key slicing of desEncrypt, NTResponse, '
+               'LMResponse and NTLMv1.Hash (21-byte padding), the 0101 blob header, reserved fields, AV id 2 and guard 0..0xFFFF, the '
+               '11644473600 / 10^7 / 116444736000000000 epoch constants, the 7-bit groups of ParityAdjust) in place of their literals; a '
+               'changed constant in the source makes the theorem named after the function fail.',
+ 'level_note': 'Trusted: Lean kernel; axioms propext, Classical.choice, Quot.sound; the hand model is tied to the Go code by differential '
+               'testing and, for the constants covered by consts_match_model_*, by regeneration from the source (control flow: '
+               'differential testing only, bounded); the cryptographic primitives are opaque parameters (their stdlib implementations are '
+               'used, not verified).'}
